@@ -24,7 +24,7 @@ ASSUMPTIONS = [
     "label addresses are read from the tool's symbol table and listing (their consistency is C02's subject)",
     "hangs and crashes are judged by C13 (counted as skipped here)",
 ]
-HEALTH = {"near_limit": 0.1}
+HEALTH = {"near_limit": 0.04}
 EXHAUSTIVE = {"quick": ["short branches: 19 mnemonics x displacement -140..+140",
                         "long branches: 19 mnemonics x both directions x distance 0..140",
                         "label,PCR: 7 mnemonics x plain/indirect x k in -2,0,2 x both directions x distance 0..140",
